@@ -5,6 +5,7 @@ import (
 	"go/token"
 	"go/types"
 	"math/big"
+	"sort"
 
 	"golang.org/x/tools/go/ssa"
 )
@@ -594,6 +595,54 @@ func (X *Exec) execSelect(fr *Frame, i *ssa.Select, st *State) {
 		}
 	}
 	fr.Regs[i] = &Val{Tuple: vals, GT: i.Type()}
+	X.applySelectHooks(fr, st, i, idx)
+}
+
+// applySelectHooks: `onselect N` clauses (N = ordinal of the select statement in the function, in source order):
+// protocol clauses evaluated when that select has chosen; `case` = index of the chosen case (-1 = default).
+func (X *Exec) applySelectHooks(fr *Frame, st *State, i *ssa.Select, idx *Term) {
+	fs := X.specOf(fr)
+	if fs == nil || len(fs.Callsites) == 0 {
+		return
+	}
+	var sels []*ssa.Select
+	for _, b := range fr.Fn.Blocks {
+		for _, ins := range b.Instrs {
+			if s, ok := ins.(*ssa.Select); ok {
+				sels = append(sels, s)
+			}
+		}
+	}
+	sort.Slice(sels, func(a, b int) bool { return sels[a].Pos() < sels[b].Pos() })
+	ord := -1
+	for k, s := range sels {
+		if s == i {
+			ord = k
+		}
+	}
+	pat := fmt.Sprintf("select:%d", ord)
+	for _, cs := range fs.Callsites {
+		if cs.Pattern != pat {
+			continue
+		}
+		cs.Hits++
+		vars := map[string]*Val{"case": {T: idx, GT: types.Typ[types.Int]}}
+		for k, s := range i.States {
+			vars[fmt.Sprintf("chan%d", k)] = X.val(fr, s.Chan)
+		}
+		for _, c := range cs.Requires {
+			t := X.evalClause(fr, st, c, vars)
+			X.oblige(st, "callsite", c.Label, fmt.Sprintf("at select %d: %s", ord, c.Src), i.Pos(), t)
+		}
+		for _, u := range cs.Updates {
+			srt, ok := X.ghostTypes[u.Name]
+			if !ok {
+				panic("update of undeclared ghost " + u.Name)
+			}
+			sc := X.clauseCtx(fr, st, vars, "update "+u.Name)
+			X.setHeap(st, "GH|"+u.Name, srt, sc.evalGhost(u.Expr, srt))
+		}
+	}
 }
 
 // ---------------------------------------------------------------------------
@@ -974,7 +1023,6 @@ func (X *Exec) noteAlloc(st *State, n *Term, el types.Type, pos token.Pos) {
 	cur := X.heap(st, "GM|maxalloc", SInt)
 	X.setHeap(st, "GM|maxalloc", SInt, ts.Ite(ts.Lt(cur, n), n, cur))
 }
-
 
 // applyStoreHooks: `onstore <field>` clauses of the frame's contract: protocol clauses (requires / update) evaluated
 // when the function assigns to that field of an object (`recv` = the object, `value` = what is stored).
